@@ -21,6 +21,7 @@ from translate.py2coq import Unsupported, find_function, src_of
 REPO = os.environ.get('VERIF_REPO', '/repo')
 LAZY = 'bionumpy/bnpdataclass/lazybnpdataclass.py'
 READER = 'bionumpy/io/npdataclassreader.py'
+DATACLASS = 'bionumpy/bnpdataclass/bnpdataclass.py'
 CLS = 'create_lazy_class.NewClass.'
 
 
@@ -205,8 +206,11 @@ def gen():
     def concat_parts():
         f = find_function(lz, CLS + '__array_function__')
         b = body_of(f)
-        expect(b[0], 'assert all((issubclass(t, LazyBNPDataClass) for t in types)), types', 'assert of __array_function__')
-        top = simple_if(b[1])
+        # since notes/C05.fix-5.diff there is no assert on `types`: the function is the dispatch test and `return NotImplemented`
+        if len(b) != 2:
+            raise Unsupported('__array_function__ has %d statements, expected 2' % len(b))
+        expect(b[1], 'return NotImplemented', 'fall-through of __array_function__')
+        top = simple_if(b[0])
         expect(top.test, 'func == np.concatenate', 'dispatch test')
         expect(top.body[0], 'values = args[0]', 'operands')
         br = simple_if(top.body[1])
@@ -215,15 +219,19 @@ def gen():
 
     def concat_path():
         br, rest = concat_parts()
-        rule = BoolRule({"hasattr(values[0]._itemgetter.buffer, 'concatenate')": 'has_concat'})
+        rule = BoolRule({'all((isinstance(a, LazyBNPDataClass) for a in values))': 'all_operands_lazy',
+                         "hasattr(values[0]._itemgetter.buffer, 'concatenate')": 'has_concat'})
         c = rule.cond(br.test)
-        expect(rest[0], 'objects = [a.get_data_object() for a in args[0]]', 'fallback, data objects')
+        if len(rest) != 3:
+            raise Unsupported('fallback of concatenate has %d statements, expected 3' % len(rest))
+        expect(rest[0], 'objects = [a.get_data_object() if isinstance(a, LazyBNPDataClass) else a for a in values]', 'fallback, data objects')
         expect(rest[1], 'args = (objects,) + args[1:]', 'fallback, argument tuple')
         expect(rest[2], 'return func(*args, **kwargs)', 'fallback, eager concatenate')
         expect(br.body[-1], 'return self.__class__(self._itemgetter.concatenate([a._itemgetter for a in values]), set_values=set_values, computed_values=computed_values)',
                'constructor call of the lazy concatenate')
-        return (rule.definition('gen_concat_stays_lazy', ['has_concat'], c)
-                + bool_const('gen_concat_requires_all_lazy', True))
+        return (rule.definition('gen_concat_stays_lazy', ['all_operands_lazy', 'has_concat'], c)
+                + bool_const('gen_concat_requires_all_lazy', False)
+                + bool_const('gen_concat_fallback_materialises_lazy_only', True))
     emit(defs, 'gen_concat_stays_lazy', concat_path)
 
     def concat_column():
@@ -335,4 +343,26 @@ def gen():
         return rule.definition('gen_should_be_lazy', ['config_lazy', 'arg_none', 'arg_false', 'has_getter', 'has_dataclass', 'is_gtf'], txt)
     emit(defs, 'gen_should_be_lazy', should_be_lazy)
 
-    return LAZY + ' + ' + READER, defs
+    # ---- BNPDataClass.sort_by (inherited by the lazy class): key through getattr, text keys as bytes, STABLE argsort, self[...]
+    def sort_by():
+        f = find_function(parse(DATACLASS), 'BNPDataClass.sort_by')
+        b = body_of(f)
+        if len(b) != 4:
+            raise Unsupported('sort_by has %d statements, expected 4' % len(b))
+        expect(b[0], 'key = getattr(self, field_name)', 'key of sort_by')
+        s1 = simple_if(b[1], 1)
+        expect(s1.test, 'isinstance(key, EncodedRaggedArray)', 'ragged text key test')
+        expect(s1.body[0], 'key = as_string_array(key)', 'ragged text key -> string array')
+        s2 = simple_if(b[2], 1)
+        expect(s2.test, 'isinstance(key, StringArray)', 'string array key test')
+        expect(s2.body[0], 'key = key.raw()', 'string array key -> bytes')
+        expect(b[3], "return self[np.argsort(key, kind='stable')]", 'stable argsort then indexing')
+        new_class = find_function(lz, 'create_lazy_class.NewClass')
+        for n in ast.walk(new_class):
+            if isinstance(n, ast.FunctionDef) and n.name == 'sort_by':
+                raise Unsupported('the lazy class overrides sort_by')
+        return (bool_const('gen_sort_by_key_through_getattr', True) + bool_const('gen_sort_by_text_key_bytewise', True)
+                + bool_const('gen_sort_by_stable', True) + bool_const('gen_sort_by_indexes_self', True))
+    emit(defs, 'gen_sort_by_key_through_getattr', sort_by)
+
+    return LAZY + ' + ' + READER + ' + ' + DATACLASS, defs
